@@ -46,12 +46,12 @@ M = {
     Ok(responses)
 }
 
-pub(crate) async fn scatter''', '''    send_fut.await?;
+/// Scatters different data''', '''    send_fut.await?;
     let responses = recv_fut.await?;
     Ok(responses)
 }
 
-pub(crate) async fn scatter''', ['C12']),
+/// Scatters different data''', ['C12']),
  'c18_no_input_len': ('src/mpc/protocol.rs', 'if *expected_inputs != inputs.len() {', 'if *expected_inputs > inputs.len() {', ['C18']),
  'c19_drop_seek': ('src/utils/file_or_mem_buf.rs', '''impl<'a, T> Drop for ChunkIter<'a, T> {
     fn drop(&mut self) {
